@@ -36,6 +36,8 @@ Marshal ==
           \cup (IF crashed THEN {V("C04", "never_panics", Sit)} ELSE {})
           \cup (IF encoded /\ ~WellFormedTLV(Ev.bytes) THEN {V("C04", "well_formed", Sit)} ELSE {})
           \cup (IF encoded /\ ~IsErr(exp) /\ Ev.bytes # exp THEN {V("C04", "equals_reference", Sit)} ELSE {})
+          \* an encoding is a value: the octets handed out by earlier calls still read as they did when they were returned
+          \cup (IF ~Ev.held THEN {V("C04", "earlier_output_intact", Sit)} ELSE {})
           \cup (IF ~IsErr(exp) /\ Ev.enc = "error" THEN {V("C04", "encodable_value_rejected", Sit)} ELSE {})
           \cup (IF encoded /\ Ev.dec \notin {"", "error"} THEN {V("C05", "decode_never_panics", Sit)} ELSE {})
           \cup (IF encoded /\ ~IsErr(exp) /\ Ev.dec = "error" THEN {V("C05", "decode_succeeds", Sit)} ELSE {})
